@@ -164,7 +164,10 @@ std::string printConnections(const ComponentMap &componentMap, const VariableMap
             ++componentMapIndex2;
         }
         // Serialise out the new connection.
-        connections += "<connection component_1=\"" + escapeAttributeValue(currentComponent1->name()) + "\"";
+        connections += "<connection";
+        if (currentComponent1 != nullptr) {
+            connections += " component_1=\"" + escapeAttributeValue(currentComponent1->name()) + "\"";
+        }
         if (currentComponent2 != nullptr) {
             connections += " component_2=\"" + escapeAttributeValue(currentComponent2->name()) + "\"";
         }
